@@ -103,49 +103,38 @@ class JSONPathRecursiveDescentSegment(JSONPathSegment):
     ) -> Iterable[JSONPathNode]:
         """Nondeterministic node traversal."""
         # (node, depth) tuples
-        queue: Deque[Tuple[JSONPathNode, int]] = deque()
-
-        # Visit the root node
-        yield root
-
-        # Queue root's children
-        queue.extend([(child, depth) for child in _nondeterministic_children(root)])
+        queue: Deque[Tuple[JSONPathNode, int]] = deque([(root, depth)])
 
         while queue:
             node, depth = queue.popleft()
-            yield node
 
-            if depth >= self.env.max_recursion_depth:
+            if (
+                isinstance(node.value, (dict, list))
+                and depth > self.env.max_recursion_depth
+            ):
                 raise JSONPathRecursionError(
                     "recursion limit exceeded", token=self.token
                 )
 
-            # Randomly choose to visit child nodes now or queue them for later?
-            visit_children = random.choice([True, False])  # noqa: S311
+            yield node
 
-            for child in _nondeterministic_children(node):
-                if visit_children:
-                    yield child
+            # Queue the node's children by randomly interleaving them into the
+            # queue while maintaining queue and child order. Every node is visited
+            # after its parent and array elements stay in array order, and every
+            # such ordering is possible.
+            children = [
+                (child, depth + 1) for child in _nondeterministic_children(node)
+            ]
 
-                    # Queue grandchildren by randomly interleaving them into the
-                    # queue while maintaining queue and grandchild order.
-                    grandchildren = [
-                        (child, depth + 2)
-                        for child in _nondeterministic_children(child)
-                    ]
-
-                    queue = deque(
-                        [
-                            next(n)
-                            for n in random.sample(
-                                [iter(queue)] * len(queue)
-                                + [iter(grandchildren)] * len(grandchildren),
-                                len(queue) + len(grandchildren),
-                            )
-                        ]
+            queue = deque(
+                [
+                    next(n)
+                    for n in random.sample(
+                        [iter(queue)] * len(queue) + [iter(children)] * len(children),
+                        len(queue) + len(children),
                     )
-                else:
-                    queue.append((child, depth + 1))
+                ]
+            )
 
     def __str__(self) -> str:
         return f"..[{', '.join(str(itm) for itm in self.selectors)}]"
